@@ -71,6 +71,11 @@ func refVarint(v uint64) []byte {
 }
 
 func checkVarint(v uint64) {
+	defer func() {
+		if r := recover(); r != nil {
+			fail("varint panic", "%s: the codec panicked: %v", fmt.Sprintf("value %#x", v), r)
+		}
+	}()
 	evals.Add(1)
 	ref := refVarint(v)
 	if len(ref) > 1 {
@@ -128,6 +133,11 @@ func checkVarint(v uint64) {
 }
 
 func checkFixed(width int, v uint64) {
+	defer func() {
+		if r := recover(); r != nil {
+			fail("fixed panic", "%s: the codec panicked: %v", fmt.Sprintf("width %d value %#x", width, v), r)
+		}
+	}()
 	evals.Add(1)
 	if v != 0 {
 		nontriv.Add(1)
@@ -222,6 +232,11 @@ func pattern(n int) []byte {
 }
 
 func checkBytes(ln int, allDst bool) {
+	defer func() {
+		if r := recover(); r != nil {
+			fail("bytes panic", "%s: the codec panicked: %v", fmt.Sprintf("length %d", ln), r)
+		}
+	}()
 	evals.Add(1)
 	if ln > 0 {
 		nontriv.Add(1)
@@ -329,6 +344,11 @@ func (it item) String() string {
 }
 
 func checkConcat(items []item) {
+	defer func() {
+		if r := recover(); r != nil {
+			fail("concat panic", "%s: the codec panicked: %v", fmt.Sprint(items), r)
+		}
+	}()
 	evals.Add(1)
 	nontriv.Add(1)
 	size := 0
